@@ -2,7 +2,7 @@
 // Line protocol (one output line per input line):
 //   setprobe <api> <mode> <seg hex>...   define the well-formed probe request of a front-end -> "ok"
 //   probe <api>                          run the probe, remember its reply as the reference -> "reply=<hex>"
-//   case <api> <mode> <seg hex>...       play the segments (mode hc|rst|wt), then the probe on a fresh connection
+//   case <api> <mode> <seg hex>...       play the segments (mode hc|rst|rst:<usec>|wt), then the probe on a fresh connection
 //        api: http | scgi | fastcgi | fwd (SCGI service with forwarding.rules: /fwd -> in-process SCGI backend, /dead -> closed port)
 //        -> reply=<hex> reads=<a,b,..|-> calls=<pre>,<ready>,<on_error>,<on_eoc> flags=<T|C|W|N|-> miss=<n>
 //           probe=<ok|bad|none|dead> pcalls=<ready calls caused by the probe> exc=<hex of what()|->
@@ -49,7 +49,7 @@ static std::string run(std::vector<std::string> const &w)
 	if(w.size()>=3 && w[0]=="case") {
 		std::vector<std::string> segs;
 		if(!parse_segs(w,3,segs)) return "bad-op";
-		if(w[2]!="hc" && w[2]!="rst" && w[2]!="wt") return "bad-op";
+		if(w[2]!="hc" && w[2].compare(0,3,"rst")!=0 && w[2]!="wt") return "bad-op";
 		server *s=&g_farm.get(w[1]);
 		int pre0=g_stats.main_pre, rdy0=g_stats.main_ready, err0=g_stats.on_error, eoc0=g_stats.on_eoc;
 		outcome o=play(*s,segs,w[2]);
